@@ -14,6 +14,8 @@ open Droop
 inductive NEx
   | hopeful          -- len(C.hopeful())
   | seatsLeft        -- E.seatsLeftToFill()
+  | nSeats           -- self.nSeats
+  | elected          -- len(self.C.elected())
   | lit (n : Int)
   | sub (a b : NEx)
 deriving DecidableEq, Repr
@@ -35,6 +37,8 @@ variable {α : Type}
 def NEx.eval (s : St α) : NEx → Int
   | .hopeful => (s.hopeful.length : Int)
   | .seatsLeft => s.seatsLeft
+  | .nSeats => (s.seats : Int)
+  | .elected => (s.elected.length : Int)
   | .lit n => n
   | .sub a b => a.eval s - b.eval s
 
@@ -77,5 +81,10 @@ theorem batchDefeatGroups_uses_program [CommRing α] [LinearOrder α] [IsStrictO
       match scanGroups A surplus (maxDefeatProg.eval s) (sortedGroups A surplus (byVote A false s.hopeful)) 0 0 A.zero none with
       | some g => ((sortedGroups A surplus (byVote A false s.hopeful)).take (g+1)).flatten
       | none => [] := rfl
+
+/-- election.py `seatsLeftToFill()`: `self.nSeats - len(self.C.elected())` -/
+def seatsLeftProg : NEx := .sub .nSeats .elected
+
+theorem seatsLeft_is_program (s : St α) : s.seatsLeft = seatsLeftProg.eval s := rfl
 
 end Droop.C01
